@@ -130,6 +130,29 @@ def check_no_hidden_state(rep, src, rule, sites, why, allowed=None):
             rep.fail(rule, fn.site, what, '%s stores into %s (line %d): %s' % (fn.qual, ws[0][0], ws[0][1], why), where='%s:%d' % (fn.module.relpath, ws[0][1]))
         else:
             rep.ok(rule, fn.site, what, 'no store to self/class/module state, no in-place mutation of it')
+        # ... and hands out nothing that outlives it: a mutable object bound at class or module level (a shared "empty result") returned
+        # to the caller is one object for all calls -- what one caller adds to its result shows up in everybody's
+        shared = []
+        mod = fn.module
+        for r_ in ast.walk(fn.node):
+            if not (isinstance(r_, ast.Return) and r_.value is not None):
+                continue
+            v_ = r_.value
+            node = None
+            if isinstance(v_, ast.Attribute) and isinstance(v_.value, ast.Name) and v_.value.id in ('cls', 'self', fn.cls or '') and fn.cls:
+                node, _c = mod.class_const_node(fn.cls, v_.attr)
+            elif isinstance(v_, ast.Name) and v_.id not in {a.arg for a in fn.node.args.args}:
+                local = any(isinstance(n_, ast.Name) and n_.id == v_.id and isinstance(n_.ctx, ast.Store) for n_ in ast.walk(fn.node))
+                node = None if local else mod.const_nodes.get('', {}).get(v_.id)
+            if isinstance(node, (ast.List, ast.Dict, ast.Set, ast.ListComp, ast.DictComp, ast.SetComp)) or (
+                    isinstance(node, ast.Call) and norm(node.func) in ('list', 'dict', 'set', 'collections.defaultdict', 'defaultdict', 'collections.OrderedDict', 'OrderedDict')):
+                shared.append((norm(v_), r_.lineno))
+        if shared:
+            rep.fail(rule, fn.site, 'hands out nothing that outlives the call', '%s returns %s (line %d), a mutable object bound once at class / module level: every call that takes this '
+                     'path returns the same object, so a caller that edits its result changes what later calls return' % (fn.qual, shared[0][0], shared[0][1]),
+                     where='%s:%d' % (mod.relpath, shared[0][1]))
+        else:
+            rep.ok(rule, fn.site, 'hands out nothing that outlives the call', 'no class- or module-level mutable object is returned', nontrivial=False)
 
 
 # ---- line primitive ------------------------------------------------------------------------------------------------------------
